@@ -11,6 +11,9 @@
 //! * statement space: ALL sequences of at most n rows over a row alphabet that depends on the
 //!   configuration (credit, debit, zero, empty / wrong running balance, other-currency rows,
 //!   conversion rows with exact figures, rows with a charge) x ALL same-day / next-day patterns;
+//! * plus families that vary one thing at a time over a small statement set: date-less lines, nested configuration
+//!   fragments, rewrite-rule lists, charge value classes, preambles, cell spellings, and the free text of a cell (every
+//!   printable ASCII byte at the start / inside / end of the reference or payee cell, in the first column or not);
 //! * every (configuration, statement) is imported by the real code twice — as a tree through
 //!   `okane::import::import(Format::Csv)` + `Txn::to_double_entry`, and as text through
 //!   `ImportCmd::run` on real files — both are compared with RefImport, and for asset accounts with a
@@ -31,7 +34,7 @@ pub const DEF: CheckDef = CheckDef {
     id: "C16",
     run,
     technique: "deviation-bounded exhaustive enumeration of import configurations (all configurations with <= d non-default dimensions out of 13) x exhaustive enumeration of all statements of <= n rows over a configuration-dependent row alphabet x all same-day/next-day date patterns; each case is imported by the real code as a tree (import::import + Txn::to_double_entry) and as text (ImportCmd::run on real files), both compared posting by posting with a reference importer in exact rational arithmetic; for asset accounts with a running-balance column the printed text behind an opening transaction is run through report::process",
-    rule: "case = (configuration, statement). Configuration dimensions (default first): layout {index,label,template '{N}'} x delimiter {',',tab,';'} x skip.head {0,2} x date format {%Y/%m/%d,%Y-%m-%d,%d.%m.%Y} x value columns {amount, credit+debit} x commodity column {absent,present} x running-balance column {present,absent} x note column {absent,present} x charge column {absent,present} x account-level default conversion {none (no secondary_commodity column), rate/secondary_amount/secondary_commodity columns with no commodity.conversion (built-in price_of_secondary/extract), price_of_secondary/compute, price_of_primary/extract, price_of_primary/compute, disabled: true, built-in modes + `commodity: GBP` (a commodity no statement cell shows)} x rewrite-rule conversion on payee ^xfer {no rule, price_of_secondary/compute, price_of_primary/extract, disabled: true, price_of_primary/extract + `commodity: GBP`; the rule names the commodity itself when there is no secondary_commodity column} x account type {asset, liability} x row_order {old_to_new,new_to_old} (row_order is dimension 11, the rule dimension 12); ALL configurations with <= 2 (thorough <= 3) non-default dimensions. Statement: ALL sequences of <= 3 rows (thorough: <= 4 rows for configurations with <= 1 non-default dimension) over the alphabet {credit, debit, zero} + per present column {debit with empty balance cell, debit with a wrong balance; credit/debit in the other currency; credit/debit rows carrying the secondary cells (decided by the account default); credit/debit rows carrying the secondary cells AND matched by the rule (decided by the rule, over the default if any); a matched debit without secondary cells when the rule disables conversion; a matched conversion debit whose secondary-commodity cell is empty when the rule names the commodity; an unmatched debit with cells when there is no default; credit/debit with a charge; other-currency conversion debit; conversion debit with a charge} x EVERY assignment of same-day/next-day to rows 2..n; rows are written newest first when row_order=new_to_old. PLUS date-less lines: for every configuration with <= 1 non-default dimension, and with 2 when one of them is row_order=new_to_old (thorough: every configuration with <= 2), ALL statements over {credit, debit} of the same length bound x all date patterns x ALL placements of one date-less line (all cells empty | only the payee cell filled) at any of the n+1 file positions, or two (empty then payee-only) at any positions g1 <= g2; such lines must produce no transaction and leave every dated row imported, oldest first, with the end-to-end clause unchanged. PLUS nested configuration fragments: for every configuration with <= 1 non-default dimension (thorough <= 2) the same configuration written as 2 documents (ALL 3^4 assignments of {outer, inner, both} to account_type, commodity, account, format; where both set it the outer carries a wrong value) and as 3 documents (all assignments of the 7 non-empty level sets in which <= 1 (thorough <= 2) attribute differs from innermost-only), always preceded by a non-matching document of wrong values, documents listed most specific first x every one-row statement of the alphabet. PLUS rewrite-rule lists: ALL lists of 2 rules over matcher {^xfer, ^nomatch} x conversion {unset, sec/compute, pri/extract, disabled} x account {unset, set} (256) and ALL lists of 3 rules over matcher x conversion (512), with no account default and with the built-in one (thorough: all 7 defaults) x 4 statements of matched / unmatched rows carrying the secondary cells; the conversion in force is that of the last matching rule that sets one. PLUS charge value classes: for every configuration of the main enumeration that has the charge column, ALL statements of <= 2 rows x date patterns over {credit, debit} x charge cell {empty, 2.50, -0.50 (refund), 0.00, -0.00} x {without, with conversion cells (where the columns exist)}; a zero cell is no charge, a negative charge nets the counter-posting like a positive one. PLUS statement preambles: skip.head = n in 0..3 x ALL sequences of n preamble lines over {text, blank, whitespace only, a line that looks like a data row} x layout {index, label} x row_order x 4 statements (every data row imported, nothing of the preamble). PLUS cell spellings: amount / credit / debit / balance / charge cells written as `-$5`, `$-5`, `USD -5`, `-5 USD` x {default, credit+debit, liability, charge column} x ALL statements of <= 2 rows over {credit, debit (, debit with charge, credit with negative charge)}. states = cases, transitions = transactions compared with RefImport (tree + text), validated = cases in which every judged value had exactly one acceptable answer",
+    rule: "case = (configuration, statement). Configuration dimensions (default first): layout {index,label,template '{N}'} x delimiter {',',tab,';'} x skip.head {0,2} x date format {%Y/%m/%d,%Y-%m-%d,%d.%m.%Y} x value columns {amount, credit+debit} x commodity column {absent,present} x running-balance column {present,absent} x note column {absent,present} x charge column {absent,present} x account-level default conversion {none (no secondary_commodity column), rate/secondary_amount/secondary_commodity columns with no commodity.conversion (built-in price_of_secondary/extract), price_of_secondary/compute, price_of_primary/extract, price_of_primary/compute, disabled: true, built-in modes + `commodity: GBP` (a commodity no statement cell shows)} x rewrite-rule conversion on payee ^xfer {no rule, price_of_secondary/compute, price_of_primary/extract, disabled: true, price_of_primary/extract + `commodity: GBP`; the rule names the commodity itself when there is no secondary_commodity column} x account type {asset, liability} x row_order {old_to_new,new_to_old} (row_order is dimension 11, the rule dimension 12); ALL configurations with <= 2 (thorough <= 3) non-default dimensions. Statement: ALL sequences of <= 3 rows (thorough: <= 4 rows for configurations with <= 1 non-default dimension) over the alphabet {credit, debit, zero} + per present column {debit with empty balance cell, debit with a wrong balance; credit/debit in the other currency; credit/debit rows carrying the secondary cells (decided by the account default); credit/debit rows carrying the secondary cells AND matched by the rule (decided by the rule, over the default if any); a matched debit without secondary cells when the rule disables conversion; a matched conversion debit whose secondary-commodity cell is empty when the rule names the commodity; an unmatched debit with cells when there is no default; credit/debit with a charge; other-currency conversion debit; conversion debit with a charge} x EVERY assignment of same-day/next-day to rows 2..n; rows are written newest first when row_order=new_to_old. PLUS date-less lines: for every configuration with <= 1 non-default dimension, and with 2 when one of them is row_order=new_to_old (thorough: every configuration with <= 2), ALL statements over {credit, debit} of the same length bound x all date patterns x ALL placements of one date-less line (all cells empty | only the payee cell filled) at any of the n+1 file positions, or two (empty then payee-only) at any positions g1 <= g2; such lines must produce no transaction and leave every dated row imported, oldest first, with the end-to-end clause unchanged. PLUS nested configuration fragments: for every configuration with <= 1 non-default dimension (thorough <= 2) the same configuration written as 2 documents (ALL 3^4 assignments of {outer, inner, both} to account_type, commodity, account, format; where both set it the outer carries a wrong value) and as 3 documents (all assignments of the 7 non-empty level sets in which <= 1 (thorough <= 2) attribute differs from innermost-only), always preceded by a non-matching document of wrong values, documents listed most specific first x every one-row statement of the alphabet. PLUS rewrite-rule lists: ALL lists of 2 rules over matcher {^xfer, ^nomatch} x conversion {unset, sec/compute, pri/extract, disabled} x account {unset, set} (256) and ALL lists of 3 rules over matcher x conversion (512), with no account default and with the built-in one (thorough: all 7 defaults) x 4 statements of matched / unmatched rows carrying the secondary cells; the conversion in force is that of the last matching rule that sets one. PLUS charge value classes: for every configuration of the main enumeration that has the charge column, ALL statements of <= 2 rows x date patterns over {credit, debit} x charge cell {empty, 2.50, -0.50 (refund), 0.00, -0.00} x {without, with conversion cells (where the columns exist)}; a zero cell is no charge, a negative charge nets the counter-posting like a positive one. PLUS statement preambles: skip.head = n in 0..3 x ALL sequences of n preamble lines over {text, blank, whitespace only, a line that looks like a data row} x layout {index, label} x row_order x 4 statements (every data row imported, nothing of the preamble). PLUS cell spellings: amount / credit / debit / balance / charge cells written as `-$5`, `$-5`, `USD -5`, `-5 USD` x {default, credit+debit, liability, charge column} x ALL statements of <= 2 rows over {credit, debit (, debit with charge, credit with negative charge)}. PLUS free text of a cell: EVERY printable ASCII byte 0x20..0x7e (and, inside quotes, tab and line feed) as first / inner / last byte of the unmapped reference-number cell or of the payee cell x that cell in the FIRST column of the record or not (Ref second, Ref first, payee first) x the line that carries it {header label, 1st / 2nd / 3rd data line of the file, every line} x layout {index, label} on the statement [credit, debit, debit]; bare and quoted, with ',' LF old_to_new, and the leading byte also with tab / ';' delimiters, new_to_old and CR LF line ends (thorough: the full product); no byte of a text cell makes a line less of a row: all three rows imported, oldest first, amounts, assertions and the end-to-end clause unchanged. states = cases, transitions = transactions compared with RefImport (tree + text), validated = cases in which every judged value had exactly one acceptable answer",
     assumptions: &[
         "okane's ledger parser is trusted to read the printed text back (C05/C15 decide that); report::process is trusted as the book-keeping referee of the end-to-end clause (C01/C02 decide that)",
         "DON'T-CARE: the counter-posting value of a row with a non-zero charge when no statement-supplied secondary amount exists (either 'opposite amount' or 'opposite amount net of the charge' is accepted); existence and rate of the charge posting; the sign of the balance assertion for a liability account; order of postings inside a transaction; payee/account of the counter-posting",
@@ -120,6 +123,91 @@ struct Cfg {
     preamble: Option<(u8, [u8; 3])>,
     /// spelling of the amount-bearing cells: 0 `-7.25`, 1 `-$7.25`, 2 `$-7.25`, 3 `USD -7.25`, 4 `-7.25 USD`
     style: u8,
+    /// free text with a chosen byte in one cell of the statement (cell-text family)
+    text: Option<CellText>,
+}
+
+/// The free text of ONE cell per line (the unmapped reference-number cell, or the payee cell) carries a chosen byte.
+/// STATEMENT: "for every CSV row the imported transaction moves the configured account by the row's amount" - what a
+/// reference / cheque-number / payee cell says is data of the row; no byte in it makes the line less of a CSV row.
+#[derive(Clone, Copy, Debug)]
+struct CellText {
+    /// the byte: every printable ASCII character 0x20..=0x7e; for the unmapped cell also tab and line feed (inside quotes)
+    ch: u8,
+    /// 0 `#1024` (first byte of the cell), 1 `10#24`, 2 `1024#`
+    place: u8,
+    /// the cell is written inside double quotes even when CSV does not require it
+    quoted: bool,
+    /// 0: the unmapped Ref cell in its usual place (second column, after the date); 1: the Ref column is physically the
+    /// FIRST column, so the text starts the record; 2: the payee column is physically first and its text is `<text> <row id>`
+    col: u8,
+    /// which line carries the text: 0 the header (the column's label), 1..=3 the k-th data line of the FILE, 4 every line
+    target: u8,
+    /// lines end in CR LF
+    crlf: bool,
+}
+
+impl CellText {
+    fn text(&self) -> String {
+        let c = self.ch as char;
+        match self.place {
+            0 => format!("{}1024", c),
+            1 => format!("10{}24", c),
+            _ => format!("1024{}", c),
+        }
+    }
+    /// the cell as written into the file: quoted when CSV requires it (delimiter, quote, line break inside) or when `quoted`
+    fn render(&self, cell: &str, d: char) -> String {
+        if self.quoted || cell.contains(d) || cell.contains('"') || cell.contains('\n') || cell.contains('\r') {
+            format!("\"{}\"", cell.replace('"', "\"\""))
+        } else {
+            cell.to_string()
+        }
+    }
+    fn on_header(&self) -> bool {
+        self.target == 0 || self.target == 4
+    }
+    fn on_data_line(&self, file_index: usize) -> bool {
+        self.target == 4 || self.target as usize == file_index + 1
+    }
+    /// key of the column that carries the text
+    fn key(&self) -> &'static str {
+        if self.col == 2 {
+            "payee"
+        } else {
+            "-"
+        }
+    }
+    /// class of the byte for signatures
+    fn class(&self) -> String {
+        let c = match self.ch {
+            b' ' => "space".to_string(),
+            b'\t' => "tab".to_string(),
+            b'\n' => "newline".to_string(),
+            c if c.is_ascii_alphanumeric() => "alnum".to_string(),
+            c => (c as char).to_string(),
+        };
+        format!("+text:{}-{}{}", ["lead", "inner", "trail"][self.place as usize], c, if self.quoted { "-quoted" } else { "" })
+    }
+}
+
+/// label of a column in the header line (the cell-text family writes its text into the label of its column)
+fn header_label(cfg: &Cfg, key: &str, label: &str) -> String {
+    match &cfg.text {
+        Some(t) if t.on_header() && t.key() == key => {
+            if key == "payee" {
+                format!("{} {}", t.text(), label)
+            } else {
+                t.text()
+            }
+        }
+        _ => label.to_string(),
+    }
+}
+
+/// content of a YAML double-quoted scalar
+fn yaml_dq(s: &str) -> String {
+    s.replace('\\', "\\\\").replace('"', "\\\"")
 }
 
 /// The same effective configuration written as k = 2 or 3 documents whose `path`s all occur in the source path
@@ -261,6 +349,9 @@ impl Cfg {
         if self.style != 0 {
             v.push(format!("cell-style={}", ["-5", "-$5", "$-5", "USD -5", "-5 USD"][self.style as usize]));
         }
+        if let Some(t) = &self.text {
+            v.push(format!("cell-text[{:?} in the {} line(s) {}{}{}]", t.text(), ["Ref cell (2nd column)", "Ref cell (FIRST column)", "payee cell (FIRST column)"][t.col as usize], ["header", "data 1", "data 2", "data 3", "header + every data"][t.target as usize], if t.quoted { ", quoted" } else { "" }, if t.crlf { ", CRLF" } else { "" }));
+        }
         if let Some(l) = &self.layer {
             let lv = |m: u8| -> String { (0..l.k).filter(|i| m >> i & 1 == 1).map(|i| i.to_string()).collect::<Vec<_>>().join("") };
             v.push(format!("{}-fragments[{}]", l.k, (0..4).map(|a| format!("{}@{}", LAYER_ATTRS[a], lv(l.masks[a]))).collect::<Vec<_>>().join(",")));
@@ -276,13 +367,16 @@ impl Cfg {
         }
     }
     /// which extra family the configuration belongs to (suffix of signatures)
-    fn family(&self) -> &'static str {
+    fn family(&self) -> String {
         match (self.layer.is_some(), self.stack.is_some()) {
-            (true, _) => "+fragments",
-            (_, true) => "+rule-list",
-            _ if self.preamble.is_some() => "+preamble",
-            _ if self.style != 0 => ["", "+cell:-$5", "+cell:$-5", "+cell:USD -5", "+cell:-5 USD"][self.style as usize],
-            _ => "",
+            (true, _) => "+fragments".into(),
+            (_, true) => "+rule-list".into(),
+            _ if self.preamble.is_some() => "+preamble".into(),
+            _ if self.style != 0 => ["", "+cell:-$5", "+cell:$-5", "+cell:USD -5", "+cell:-5 USD"][self.style as usize].into(),
+            _ => match &self.text {
+                Some(t) => t.class(),
+                None => String::new(),
+            },
         }
     }
     /// coarse shape used in violation signatures
@@ -295,7 +389,7 @@ impl Cfg {
 fn configs(d: usize) -> Vec<Cfg> {
     fn rec(pos: usize, left: usize, cur: &mut [u8; 13], out: &mut Vec<Cfg>) {
         if pos == DIMS.len() {
-            out.push(Cfg { choice: *cur, layer: None, stack: None, preamble: None, style: 0 });
+            out.push(Cfg { choice: *cur, layer: None, stack: None, preamble: None, style: 0, text: None });
             return;
         }
         cur[pos] = 0;
@@ -327,7 +421,11 @@ const FEE: &str = "2.50";
 
 /// (field key in the configuration, header label) in physical column order. "-" = a column no field maps to.
 fn columns(cfg: &Cfg) -> Vec<(&'static str, &'static str)> {
-    let mut v = vec![("date", "Date"), ("-", "Ref"), ("payee", "Payee")];
+    let mut v = match cfg.text.map(|t| t.col).unwrap_or(0) {
+        0 => vec![("date", "Date"), ("-", "Ref"), ("payee", "Payee")],
+        1 => vec![("-", "Ref"), ("date", "Date"), ("payee", "Payee")],
+        _ => vec![("payee", "Payee"), ("-", "Ref"), ("date", "Date")],
+    };
     if cfg.bal_col() {
         v.push(("balance", "Balance"));
     }
@@ -419,7 +517,7 @@ fn config_pieces(cfg: &Cfg) -> Pieces {
         }
         match cfg.layout() {
             0 => s.push_str(&format!("    {}: {}\n", key, i + 1)),
-            1 => s.push_str(&format!("    {}: \"{}\"\n", key, label)),
+            1 => s.push_str(&format!("    {}: \"{}\"\n", key, yaml_dq(&header_label(cfg, key, label)))),
             _ => {
                 if *key == "date" {
                     s.push_str(&format!("    {}: {}\n", key, i + 1));
@@ -976,11 +1074,24 @@ fn csv_text(cfg: &Cfg, st: &RefStatement) -> String {
         s.push_str("Exported by Okane Bank\nperiod,2024-03\n");
     }
     let ds = d.to_string();
-    s.push_str(&cols.iter().map(|(_, l)| quote(l)).collect::<Vec<_>>().join(&ds));
+    s.push_str(
+        &cols
+            .iter()
+            .map(|(key, l)| match &cfg.text {
+                Some(t) if t.on_header() && t.key() == *key => t.render(&header_label(cfg, key, l), d),
+                _ => quote(l),
+            })
+            .collect::<Vec<_>>()
+            .join(&ds),
+    );
     s.push('\n');
-    let line = |r: &RefRow| -> String {
+    let line = |(file_index, r): (usize, &RefRow)| -> String {
         cols.iter()
             .map(|(key, _)| {
+                if let Some(t) = cfg.text.as_ref().filter(|t| t.on_data_line(file_index) && t.key() == *key) {
+                    let cell = if *key == "payee" { format!("{} {}", t.text(), r.id) } else { t.text() };
+                    return t.render(&cell, d);
+                }
                 let cell: String = match *key {
                     "date" => r.date.format(cfg.datefmt()).to_string(),
                     "-" => format!("ref{}", r.id.len()),
@@ -1000,7 +1111,7 @@ fn csv_text(cfg: &Cfg, st: &RefStatement) -> String {
             .collect::<Vec<_>>()
             .join(&ds)
     };
-    let data: Vec<String> = if cfg.new_to_old() { st.rows.iter().rev().map(|r| line(r)).collect() } else { st.rows.iter().map(|r| line(r)).collect() };
+    let data: Vec<String> = if cfg.new_to_old() { st.rows.iter().rev().enumerate().map(line).collect() } else { st.rows.iter().enumerate().map(line).collect() };
     let dateless_line = |kind: u8| -> String { cols.iter().map(|(key, _)| if kind == 1 && *key == "payee" { quote("Sub-total") } else { String::new() }).collect::<Vec<_>>().join(&ds) };
     for g in 0..=data.len() {
         for (_, kind) in st.dateless.iter().filter(|(gap, _)| *gap == g) {
@@ -1011,6 +1122,9 @@ fn csv_text(cfg: &Cfg, st: &RefStatement) -> String {
             s.push_str(l);
             s.push('\n');
         }
+    }
+    if cfg.text.map(|t| t.crlf).unwrap_or(false) {
+        s = s.replace('\n', "\r\n");
     }
     s
 }
@@ -1116,8 +1230,13 @@ fn judge(via: &str, cfg: &Cfg, st: &RefStatement, got: &[ObsTxn]) -> Result<(), 
         return Err((format!("{}/row-count/{}", via, order), format!("{} rows in the statement, {} transactions imported", st.rows.len(), got.len())));
     }
     // oldest first: the i-th transaction is the i-th oldest row
+    // the row id lives in the payee. One exception: a payee cell containing `;` is printed as it is, and the ledger syntax
+    // reads the rest of the header line as a comment; the payee text is not C16's (DON'T-CARE), so in the re-parsed text
+    // such a row is recognised by the part of its payee before the `;` (and, as always, by its date).
+    let cut_payee = via == "text" && cfg.text.map(|t| t.col == 2 && t.ch == b';').unwrap_or(false);
+    let payee_ok = |g: &ObsTxn, r: &RefRow| g.payee.contains(&r.id) || (cut_payee && format!("{} {}", cfg.text.unwrap().text(), r.id).starts_with(g.payee.trim()));
     for (i, (r, g)) in st.rows.iter().zip(got).enumerate() {
-        if !g.payee.contains(&r.id) || g.date != r.date {
+        if !payee_ok(g, r) || g.date != r.date {
             let seq: Vec<String> = got.iter().map(|g| format!("{} {}", g.date, g.payee)).collect();
             return Err((format!("{}/not-oldest-first/{}", via, order), format!("transaction {} should be row '{}' of {} but is '{}' of {}; output order: {:?}", i + 1, r.id, r.date, g.payee, g.date, seq)));
         }
@@ -1443,7 +1562,9 @@ fn run_case(cfg: &Cfg, _cfg_index: usize, entry: &icfg::ConfigEntry, files: &Fil
             }
         }
     };
-    let class = if st.dateless.is_empty() {
+    let class = if let Some(t) = &cfg.text {
+        format!("{}/with-cell-text-{}/{}", acct, ["ref-2nd-col", "ref-1st-col", "payee-1st-col"][t.col as usize], e2e)
+    } else if st.dateless.is_empty() {
         format!("{}/{}/{}{}", acct, cfg.conv_name(), e2e, if definite { "" } else { "/partly-dont-care" })
     } else {
         format!("{}/with-dateless-lines/{}", acct, e2e)
@@ -1606,7 +1727,7 @@ fn run(ctx: &mut Ctx) {
         for st in &stacks {
             let mut choice = [0u8; 13];
             choice[9] = dflt as u8;
-            let cfg = Cfg { choice, layer: None, stack: Some(*st), preamble: None, style: 0 };
+            let cfg = Cfg { choice, layer: None, stack: Some(*st), preamble: None, style: 0, text: None };
             let mut loaded = Loaded::new(next_id, &cfg);
             next_id += 1;
             for letters in &stack_statements {
@@ -1667,7 +1788,7 @@ fn run(ctx: &mut Ctx) {
                     let mut choice = [0u8; 13];
                     choice[0] = layout;
                     choice[11] = order;
-                    let cfg = Cfg { choice, layer: None, stack: None, preamble: Some((n, kinds)), style: 0 };
+                    let cfg = Cfg { choice, layer: None, stack: None, preamble: Some((n, kinds)), style: 0, text: None };
                     let mut loaded = Loaded::new(next_id, &cfg);
                     next_id += 1;
                     for letters in &pre_statements {
@@ -1688,7 +1809,7 @@ fn run(ctx: &mut Ctx) {
             if dim != usize::MAX {
                 choice[dim] = 1;
             }
-            let cfg = Cfg { choice, layer: None, stack: None, preamble: None, style };
+            let cfg = Cfg { choice, layer: None, stack: None, preamble: None, style, text: None };
             let mut alpha = vec![p0, p1];
             if cfg.fee_col() {
                 alpha.push(Letter { fee: true, feek: 0, ..p1 });
@@ -1706,6 +1827,58 @@ fn run(ctx: &mut Ctx) {
             }
         }
     }
+    // ---- free text of a cell: EVERY printable ASCII byte (and, inside quotes, tab / line feed) as first / inner / last byte of
+    //      the unmapped Ref cell or of the payee cell, with that cell in the first column of the record or not, in the header
+    //      line, in one data line or in every line; bare and quoted; delimiters, row orders, LF / CRLF
+    let mut total_text = 0u64;
+    let text_letters = [p0, p1, p1];
+    let text_same = [false, true, false];
+    // (delimiter, row order, CRLF, places, quoted forms)
+    let mut text_variants: Vec<(u8, u8, bool, Vec<u8>, Vec<bool>)> = vec![];
+    if thorough {
+        for delim in 0..3u8 {
+            for order in 0..2u8 {
+                for crlf in [false, true] {
+                    text_variants.push((delim, order, crlf, vec![0, 1, 2], vec![false, true]));
+                }
+            }
+        }
+    } else {
+        text_variants.push((0, 0, false, vec![0, 1, 2], vec![false, true]));
+        text_variants.push((1, 0, false, vec![0], vec![false]));
+        text_variants.push((2, 0, false, vec![0], vec![false]));
+        text_variants.push((0, 1, false, vec![0], vec![false]));
+        text_variants.push((0, 0, true, vec![0], vec![false]));
+    }
+    for (delim, order, crlf, places, quotes) in &text_variants {
+        for layout in [0u8, 1] {
+            for col in 0..3u8 {
+                let mut bytes: Vec<u8> = (0x20..=0x7eu8).collect();
+                if col != 2 {
+                    bytes.push(b'\t');
+                    bytes.push(b'\n');
+                }
+                for place in places {
+                    for quoted in quotes {
+                        for ch in &bytes {
+                            for target in 0..5u8 {
+                                let mut choice = [0u8; 13];
+                                choice[0] = layout;
+                                choice[1] = *delim;
+                                choice[11] = *order;
+                                let cfg = Cfg { choice, layer: None, stack: None, preamble: None, style: 0, text: Some(CellText { ch: *ch, place: *place, quoted: *quoted, col, target, crlf: *crlf }) };
+                                let mut loaded = Loaded::new(next_id, &cfg);
+                                next_id += 1;
+                                total_text += 1;
+                                loaded.statement(ctx, &mut files, &text_letters, &text_same, &[]);
+                            }
+                        }
+                    }
+                }
+            }
+        }
+    }
+    ctx.fact("cell_text_config_x_statement", total_text);
     ctx.fact("preamble_config_x_statement", total_preamble);
     ctx.fact("cell_spelling_config_x_statement", total_style);
     ctx.fact("charge_value_class_configurations", charge_configs);
